@@ -84,7 +84,7 @@ def run_case(case, chooser, max_steps=100_000, max_time=20000.0, keep_log=False)
             pass  # relative to the end of gateway setup: armed by main()
         elif at[0] == "op":
             op_faults.setdefault((at[1], at[2], at[3]), []).append(f)
-        elif at[0] == "byte":
+        elif at[0] in ("byte", "byte_after_boot"):
             byte_faults.append(f)
         elif at[0] == "time":
             # fire when the simulated clock reaches t: a helper task sleeps until then
@@ -114,10 +114,13 @@ def run_case(case, chooser, max_steps=100_000, max_time=20000.0, keep_log=False)
                 at = f["at"]
                 for p in w.pipes:
                     if p.name.endswith(at[1]) and p.cut_at is None and not getattr(p, "_armed", False):
-                        if at[2] < p.total:
+                        if at[0] == "byte" and at[2] < p.total:
                             continue
                         p._armed = True
-                        p.cut_at = at[2]
+                        if at[0] == "byte":
+                            p.cut_at = at[2]
+                        else:
+                            p.cut_after_nl = at[2]
                         p.on_cut = (lambda f=f: fire(f))
                         byte_faults.remove(f)
                         break
